@@ -129,6 +129,9 @@ func buildPatch(mutIdx, structure int) []byte {
 
 // consume feeds a patch stream to the applier and to the optimizer; any panic is a violation.
 func consume(patch []byte, root string) {
+	// "never loops forever": a path that exhausts its decision or instruction budget is reported as candidate
+	// non-termination (with the wide inputs made huge) and confirmed natively by a 10 s timeout
+	rt.NonTerminationIsViolation(true)
 	// patch applier (fresh bowl)
 	p, err := patcher.New(seeksource.FromBytes(patch), hlib.Consumer)
 	if err == nil {
